@@ -548,6 +548,48 @@ def check_guard(nm, args):
                    v, "SMRTError")
 
 
+def decode_model(text, line=""):
+    """the value of a model output line of the scalar slices (components scaled by the powers of two given in the driver line), or None"""
+    try:
+        toks, lt = text.split(), line.split()
+        kr, ki = int(lt[1]), int(lt[2])
+        if len(toks) == 2 and all(t.startswith("f") for t in toks):
+            return complex(math.ldexp(C.t2f(toks[0]), kr), math.ldexp(C.t2f(toks[1]), ki))
+        if len(toks) == 1 and toks[0].startswith("f"):
+            return complex(math.ldexp(C.t2f(toks[0]), kr), 0.0)
+    except Exception:  # noqa
+        pass
+    return None
+
+
+def check_reference(nm, args, model_text=None, reference=None, line=""):
+    sp = by_name()[nm]
+    ref = reference if reference is not None else decode_model(model_text or "", line)
+    if ref is None:
+        return None
+    ref = complex(*ref) if isinstance(ref, (list, tuple)) else complex(ref)
+    v = run(sp.call, tuple(args))
+    if isinstance(v, str):
+        return Finding(f"{sp.module}.{nm}:reference", f"{nm}{tuple(args)} = {v} but the audited value is {ref}",
+                       {"check": "reference", "fn": nm, "args": list(args), "reference": [ref.real, ref.imag]}, v, str(ref))
+    if abs(complex(v) - ref) <= 1e-6 * abs(ref):
+        return None
+    return Finding(f"{sp.module}.{nm}:reference", f"{nm}{tuple(args)} = {complex(v)} differs from the value pinned from the audited tree {ref}",
+                   {"check": "reference", "fn": nm, "args": list(args), "reference": [ref.real, ref.imag]}, complex(v), f"{ref} within 1e-6 relative")
+
+
+def check_three(nm, f, d, lw):
+    from smrt.permittivity import snow_mixing_formula as smf
+    v = run(getattr(smf, nm), (f, FP, d, lw))
+    if isinstance(v, str):
+        return None
+    z = complex(v)
+    if _fin(z) and z.real >= 1 and z.imag >= 0:
+        return None
+    return Finding(f"snow_mixing_formula.{nm}:admissible", f"{nm}({f}, {FP}, {d}, {lw}) = {z}", {"check": "three", "fn": nm, "args": [f, d, lw]},
+                   z, "finite, real part >= 1, imaginary part >= 0")
+
+
 def check_alt(nm1, nm2, args, rel):
     S = by_name()
     a, b = run(S[nm1].call, args), run(S[nm2].call, args)
@@ -629,7 +671,21 @@ def oracle(ctx, hints, effort):
             v1, v2 = run(S[d["fn"]].call, tuple(d["args"].values())), run(S[d["fn"]].call, tuple(d["args"].values()))
             if (isinstance(v1, str) != isinstance(v2, str)) or (not isinstance(v1, str) and not np.array_equal(np.asarray(v1), np.asarray(v2))):
                 keep(Finding(f"{S[d['fn']].module}.{d['fn']}:nondeterministic", "two calls differ", {"check": "admissible", "fn": d["fn"], "args": list(d["args"].values())}, [v1, v2], "equal"))
+    # "agree with reference tables pinned from the audited tree": the model evaluates the audited formulae (it agreed with the audited
+    # tree to 1e-9 on every run before the change), so a scalar case on which the code now differs is an entry of that table that moved
+    for h in hints[:400]:
+        d = h.get("desc") or {}
+        if isinstance(d, dict) and d.get("fn") in S and isinstance(d.get("args"), dict) and "array_arg" not in d and h.get("slice") == S[d["fn"]].slice:
+            evals += 1
+            keep(check_reference(d["fn"], list(d["args"].values()), h.get("model", ""), line=h.get("line", "")))
     n = ctx.n(12, 120) * (1 if effort == "routine" else 6)
+    # three-component wet snow (Colbeck I-III, three-component Polder-van Santen) up to saturated slush: admissible values, the
+    # physical root of the mixing equation and not another one
+    from smrt.permittivity import snow_mixing_formula as smf
+    for nm in THREE:
+        for _ in range(max(6, n // 2)):
+            evals += 1
+            keep(check_three(nm, float(rng.choice(FREQS)), float(rng.uniform(60, 910)), float(rng.choice([0.05, 0.2, 0.35, 0.5, 0.65, 0.8, 0.95]))))
     for nm, args in adm_cases(rng, n):
         evals += 1
         keep(check_admissible(nm, args))
@@ -692,6 +748,10 @@ def replay(inp, rp=None):
         return check_guard(inp["fn"], tuple(inp["args"]))
     if c == "array":
         return check_array(inp["fn"], inp["ai"], [tuple(r) for r in inp["rows"]])
+    if c == "reference":
+        return check_reference(inp["fn"], inp["args"], reference=inp["reference"])
+    if c == "three":
+        return check_three(inp["fn"], *inp["args"])
     if c == "alt":
         return check_alt(inp["fn"], inp["fn2"], tuple(inp["args"]), inp["rel"])
     if c == "brine":
